@@ -56,6 +56,7 @@ pub enum R {
     StartNegM,
     /// `\\A`, `\\z`, `(?m:\\z)` (multi-line mode does not change `\\z`), `(?m:^)`, `(?m:$)`
     StartA,
+    StartAm,
     EndZ,
     EndZm,
     MlStart,
@@ -115,6 +116,7 @@ pub fn render(e: &R, out: &mut String) {
         R::LitNegI(c) => out.push_str(&format!("(?-i:{})", c)),
         R::StartNegM => out.push_str("(?-m:^)"),
         R::StartA => out.push_str("\\A"),
+        R::StartAm => out.push_str("(?m:\\A)"),
         R::EndZ => out.push_str("\\z"),
         R::EndZm => out.push_str("(?m:\\z)"),
         R::MlStart => out.push_str("(?m:^)"),
@@ -359,7 +361,7 @@ impl<'t> M<'t> {
                 Some(d) if d == *c => k(self, ix + d.len_utf8()),
                 _ => false,
             },
-            R::StartA | R::StartNegM => ix == 0 && k(self, ix),
+            R::StartA | R::StartAm | R::StartNegM => ix == 0 && k(self, ix),
             R::EndZ | R::EndZm => ix == self.text.len() && k(self, ix),
             R::MlStart => (ix == 0 || self.prev_char(ix) == Some('\n')) && k(self, ix),
             R::MlEnd => (ix == self.text.len() || self.next_char(ix) == Some('\n')) && k(self, ix),
@@ -800,7 +802,7 @@ impl Gen {
                 8 => R::MlStart,
                 9 => R::MlEnd,
                 10 => R::StartNegM,
-                _ => R::NotWordB,
+                _ => R::StartAm,
             },
             _ => {
                 if cx.no_cond {
@@ -970,7 +972,7 @@ fn compare(e: &R, pat: &str, re: &Regex, text: &str, budget: &mut Budget) -> Opt
 /// a size that is constant by construction (fixed-size pieces, fixed counts, equally long alternatives / branches); None = not obviously so
 fn clearly_const(e: &R) -> Option<usize> {
     match e {
-        R::Empty | R::Start | R::End | R::WordB | R::NotWordB | R::KeepOut | R::Look(..) | R::StartA | R::EndZ | R::EndZm | R::MlStart | R::MlEnd | R::StartNegM => Some(0),
+        R::Empty | R::Start | R::End | R::WordB | R::NotWordB | R::KeepOut | R::Look(..) | R::StartA | R::StartAm | R::EndZ | R::EndZm | R::MlStart | R::MlEnd | R::StartNegM => Some(0),
         R::Lit(_) | R::Any | R::Class(..) | R::AnyNl | R::AnyNegS | R::LitCi(_) | R::LitNegI(_) => Some(1),
         R::Cat(v) => v.iter().map(clearly_const).try_fold(0usize, |a, b| b.map(|b| a + b)),
         R::Alt(v) => {
